@@ -27,6 +27,9 @@ TOPOLOGIES = {
     "three_founders": [(-1, -1), (-1, -1), (-1, -1), (0, 1), (1, 2), (3, 4)],
     "bigfamily": [(-1, -1), (-1, -1), (0, 1), (0, 1), (1, 0), (0, 1), (0, -1)],
     "three_generations": [(-1, -1), (-1, -1), (0, 1), (-1, -1), (2, 3), (4, -1)],
+    # a parental pair one (or both) of whose members has exactly one known parent (in either column, see flip_cols)
+    "halfknown_pair": [(-1, -1), (0, -1), (-1, -1), (1, 2)],
+    "halfknown_both": [(-1, -1), (0, -1), (-1, 0), (1, 2), (2, 1)],
 }
 
 
@@ -108,6 +111,10 @@ def gen_config(rng, tier, flavor="db"):
     cfg["listing"] = list(range(ns))
     if rng.random() < 0.5:
         rng.shuffle(cfg["listing"])
+    # which parent is written in which column is arbitrary too (with its gamete parameters): [-1, sire] as well as [dam, -1]
+    cfg["flip_cols"] = [rng.random() < 0.3 for _ in range(ns)]
+    # the API's default flat prior (frequencies=None) instead of an explicit flat vector
+    cfg["freqs_none"] = cfg["freqs"] == "flat" and rng.random() < 0.5
     return cfg
 
 
@@ -195,6 +202,12 @@ class PedSim:
         self.tau = np.array([cfg["tau"][o] for o in lst], dtype=np.int64)
         self.lam = np.array([cfg["lambda"][o] for o in lst], dtype=np.float64)
         self.err = np.array([cfg["error"][o] for o in lst], dtype=np.float64)
+        flips = cfg.get("flip_cols") or []
+        for k, o in enumerate(lst):
+            if o < len(flips) and flips[o] and self.parents[k, 0] != self.parents[k, 1]:
+                for arr in (self.parents, self.tau, self.lam, self.err):
+                    arr[k] = arr[k][::-1].copy()
+                ctx.counters.inc("parent_columns_flipped")
         self.truth = [self.truth[o] for o in lst]
         self.reads = self.reads[lst]
         self.counts = self.counts[lst]
@@ -317,7 +330,7 @@ class PedSim:
                 model = m["pclasses"].PedigreeCallingMCMC(
                     sample_ploidy=self.ploidy, sample_inbreeding=np.zeros(self.ns), sample_parents=self.parents,
                     gamete_tau=self.tau, gamete_lambda=self.lam, gamete_error=self.err, haplotypes=self.haps,
-                    frequencies=np.array(self.fl), steps=cfg["steps"], annealing=0, chains=cfg["chains"], random_seed=5,
+                    frequencies=None if cfg.get("freqs_none") else np.array(self.fl), steps=cfg["steps"], annealing=0, chains=cfg["chains"], random_seed=5,
                     step_type=cfg["step_type"], swap_parental_alleles=bool(cfg["swap"]))
                 trace = model.fit(self.reads, self.counts, initial=self.start_state(0))
                 self.result = ("fit", trace)
@@ -686,6 +699,10 @@ def shrink_candidates(cfg, violation):
         mod(n_haps=cfg["n_haps"] - 1)
     if cfg["freqs"] != "flat":
         mod(freqs="flat")
+    if cfg.get("freqs_none"):
+        mod(freqs_none=False)
+    if any(cfg.get("flip_cols") or []):
+        mod(flip_cols=[False] * len(cfg["flip_cols"]))
     if any(any(x > 0 for x in row) for row in cfg["lambda"]):
         mod(**{"lambda": [[0.0, 0.0] for _ in cfg["lambda"]]})
     if any(n > 1 for n in cfg["n_reads"]):
